@@ -682,6 +682,44 @@ theorem C17_deletion_progress (d : Del) (ht : 1 ≤ d.tear) (i : Nat) :
   rw [C17_del_facts]
   constructor <;> intro h <;> simp [dstep, h, ht]
 
+/-! ## torrents whose loop never ran; reply sends that could strand the loop -/
+
+/-- the configuration of a *Torrent that AddTorrent refused as a duplicate: its channels exist
+    and Done and Deleted are closed — the loop "has exited" without ever having run -/
+def refusedCfg (sp : Spec) (ctx room : Bool) (ahead : Nat) : Cfg :=
+  { init sp ctx room ahead with tear := 4 }
+
+/-- **A refused duplicate is a dead torrent.**  Table: AddTorrent makes Event, Done and Deleted
+    before it calls add(t), and its refusal branch closes Done and Deleted before returning
+    ErrExist.  Model: that object is in a reachable "loop exited, teardown finished"
+    configuration, so by `C17_dying_returns` every operation on it returns (and by
+    `C17_unanswered_not_ok`-style reasoning a request/reply call cannot return a value: nobody
+    dequeues). -/
+theorem C17_refused_is_dead :
+    Gen.addTorrentMakesBeforeAdd = true ∧
+    Gen.addTorrentRefusal = ["close(t.Done)", "close(t.Deleted)", "return nil, os.ErrExist"] ∧
+    ∀ (sp : Spec), sp.guarded = true → sp.replySafe = true → ∀ (ctx room : Bool) (ahead : Nat),
+      Reach sp (refusedCfg sp ctx room ahead) ∧
+      ∃ ls c', run sp (refusedCfg sp ctx room ahead) ls = some c' ∧ c'.res.isSome = true ∧
+        (∀ l ∈ ls, l.isCaller = true ∨ l = .tearNext) := by
+  refine ⟨by decide, by decide, ?_⟩
+  intro sp hg hs ctx room ahead
+  have hr : Reach sp (refusedCfg sp ctx room ahead) := by
+    refine reach_run sp [.exit, .tearNext, .tearNext, .tearNext] _ _ (Reach.init ctx room ahead) ?_
+    simp [run, step, init, refusedCfg]
+  exact ⟨hr, C17_dying_returns sp hg hs _ hr (by simp [refusedCfg])⟩
+
+/-- **No reply send can strand a loop.**  Both event loops answer with a plain send on an
+    unbuffered channel (the exception of `C17_points_guarded`).  In packages tor, peer, http
+    and fuse every function that sends an event carrying a reply channel it made waits for the
+    answer in a way that cannot be abandoned for any reason other than the answering loop's
+    Done (no context, timer or default alternative): there is no hazard row. -/
+theorem C17_reply_send_never_strands_loop :
+    Gen.replyHazards = [] ∧ (∀ w ∈ Gen.replyWaits, w.2.2 = false) := by decide
+
+example : Gen.replyWaits.length = 16 := by decide
+example : ("tor.Torrent.GetAvailable", "select[tDone]", false) ∈ Gen.replyWaits := by decide
+
 /-! ## the life of a connection handed to the torrent -/
 
 def connFacts : ConnFacts :=
